@@ -17,9 +17,11 @@ import (
 	"fmt"
 	"os"
 	"strings"
+	"time"
 
 	"grol.io/grol/ast"
 	"grol.io/grol/eval"
+	"grol.io/grol/extensions"
 	"grol.io/grol/lexer"
 	"grol.io/grol/object"
 	"grol.io/grol/parser"
@@ -50,6 +52,7 @@ type sLoop struct {
 	exit    byte // b c r e p d
 	unrw    byte // 0 rewritable; 'l' lambda in body; '+' v++ in body; '-' --v in body
 }
+type sCatch struct{ inner stmt } // catch(<loop or call>): an error result becomes a value
 type sCall struct {
 	f    *fdef
 	args []string
@@ -100,6 +103,11 @@ func sigStmt(s stmt) byte {
 			default:
 				return g
 			}
+		}
+		return 'n'
+	case *sCatch:
+		if g := sigStmt(x.inner); g != 'e' {
+			return g
 		}
 		return 'n'
 	case *sCall:
@@ -178,6 +186,8 @@ func skelStmt(s stmt) string {
 		}
 		named := x.v != "" && !isConstName(x.v)
 		return fmt.Sprintf("(L %s%s%s)", b01(named), b01(x.unrw == 0), pre(its))
+	case *sCatch:
+		return "(K " + skelStmt(x.inner) + ")"
 	case *sCall:
 		return fmt.Sprintf("(C %d %s)", x.nint, skelStmts(x.f.body))
 	}
@@ -231,6 +241,8 @@ func srcStmt(s stmt) string {
 		return "vprobe()"
 	case *sLoop:
 		return srcLoopHead(x) + " {" + srcLoopBody(x) + "}"
+	case *sCatch:
+		return "catch(" + srcStmt(x.inner) + ")"
 	case *sCall:
 		return x.f.name + "(" + strings.Join(x.args, ",") + ")"
 	}
@@ -302,8 +314,20 @@ func (g *skgen) genStmts(d, cd int, inFunc bool, vars []string, maxLen int) []st
 			out = append(out, sProbe{})
 		case k < 36:
 			out = append(out, g.valueStmt(vars))
-		case k < 70 && d < 10:
+		case k < 64 && d < 10:
 			out = append(out, g.genLoop(d, cd, inFunc, vars))
+		case k < 72 && d < 10:
+			// the loop (or call) under catch(): an error inside it is swallowed and evaluation goes on
+			var inner stmt
+			if g.r.Pct(75) || cd >= 3 {
+				inner = g.genLoop(d, cd, inFunc, vars)
+			} else {
+				inner = g.genCall(cd, vars)
+			}
+			if sg := sigStmt(inner); sg == 'n' || sg == 'e' || sg == 'p' {
+				inner = &sCatch{inner: inner}
+			}
+			out = append(out, inner)
 		case k < 84 && cd < 3:
 			out = append(out, g.genCall(cd, vars))
 		case k < 88:
@@ -367,7 +391,7 @@ func (g *skgen) genLoop(d, cd int, inFunc bool, vars []string) stmt {
 	}
 	x.body = g.genStmts(d+1, cd, inFunc, nv, ml)
 	if x.n > 0 && g.r.Pct(55) {
-		x.exit = "bbccrrepd"[g.r.Intn(9)]
+		x.exit = "bbccrreeepd"[g.r.Intn(11)]
 		x.exitAt = g.r.Intn(x.n)
 		x.exitPos = g.r.Intn(len(x.body) + 1)
 	}
@@ -437,6 +461,12 @@ func genSkInput(r *Rng, nfn *int, known []*fdef, budget int) (skInput, []*fdef) 
 
 const prelude = "func deep(n){deep(n+1)}; acc=0; zz=0"
 
+// number of on/off differences outside the known constructs seen so far: after a few dozen the
+// exploration stops early (the violation is established; under a broken tree each one may cost a deadline)
+var nUnexpected int
+
+func enough() bool { return nUnexpected >= 40 }
+
 type sessionResult struct {
 	on, off []SessObs
 }
@@ -447,6 +477,7 @@ func runBoth(c *Ctx, inputs []string, gap string, gapAt int) sessionResult {
 	var res sessionResult
 	for mode := 0; mode < 2; mode++ {
 		x := NewSess(mode == 1, maxDepthC05)
+		x.Opts.MaxDuration = 3 * time.Second // generated programs end in milliseconds; a hang is reported as an error outcome
 		x.Run(prelude, 0)
 		for _, in := range inputs {
 			o := x.Run(in, 0)
@@ -466,6 +497,8 @@ func runBoth(c *Ctx, inputs []string, gap string, gapAt int) sessionResult {
 		construct := "unexpected"
 		if gap != "" && i == gapAt {
 			construct = gap
+		} else {
+			nUnexpected++
 		}
 		var sig string
 		if a.Class() != b.Class() {
@@ -613,6 +646,8 @@ func modregStmts(c *Ctx, l []stmt) {
 				}
 			}
 			modregStmts(c, x.body)
+		case *sCatch:
+			modregStmts(c, []stmt{x.inner})
 		}
 	}
 }
@@ -642,7 +677,7 @@ var modregCorpus = []struct{ name, body string }{
 	{"n", "(func(x){x+n})(n)"}, {"n", "if n > 1 {n} else {n-1}"}, {"n", "for n=0:3 {n}"},
 	{"n", "for i=0:n {i+n}"}, {"n", "return n"}, {"n", "return"}, {"n", "[n, [n, 2], n]"},
 	{"n", "x[n]; x[n:]; x[1:n]; n[0]"}, {"n", `{"a":n, n:n, 1:{n:2}}`}, {"n", "println(n, len(n))"},
-	{"n", "del(n)"}, {"n", "// c\nn /* b */"}, {"n", "n := 3; n = n * n"}, {"n", "m.n = n"},
+	{"n", "del(n)"}, {"n", "del(m)"}, {"n", "del(m.n)"}, {"n", "quote(m)"}, {"n", "quote(n+1); n"}, {"n", "catch(n)"}, {"n", "// c\nn /* b */"}, {"n", "n := 3; n = n * n"}, {"n", "m.n = n"},
 	{"n", "for true {break; continue; n}"}, {"n", `"n"; 1.5; true; nil`}, {"n", "a => n"},
 	{"n", "mm = macro(n){quote(unquote(n))}"}, {"n", "mm = macro(a){quote(unquote(a) + n)}"},
 	{"n", "n.n(n)"}, {"nn", "n; nn; nnn"}, {"n", ""}, {"n", "func named(n){n}"}, {"n", "--n; n++"},
@@ -714,6 +749,14 @@ func (g *vgen) stmts(fn string, ints, loops []string, strs []string, d, n int, i
 				body = append(body[:pos], append([]string{fmt.Sprintf("if %s==%d {%s}", lv, lo+g.r.Intn(hi+1), ex)}, body[pos:]...)...)
 			}
 			out = append(out, head+" {"+strings.Join(body, "; ")+"}")
+		case k < 51 && len(loops) > 0:
+			// the loop variable itself is assigned (an integer): the next iteration starts from the counter again
+			lv := loops[g.r.Intn(len(loops))]
+			out = append(out, lv+"="+g.intExpr(all, 1))
+		case k < 54 && d < 4 && len(ints) > 0:
+			// an error inside a counted loop swallowed by catch(): evaluation goes on in the same environment
+			lv := fmt.Sprintf("%sk%d", fn, d)
+			out = append(out, fmt.Sprintf(`%s=len(catch(for %s=%d {if %s==%d {error("sw")}; %s}))`, ints[g.r.Intn(len(ints))], lv, 1+g.r.Intn(3), lv, g.r.Intn(3), g.intExpr(append(all, lv), 1)))
 		case k < 56:
 			a := g.stmts(fn, ints, loops, strs, d, 1, inLoop)
 			b := g.stmts(fn, ints, loops, strs, d, 1, inLoop)
@@ -831,6 +874,7 @@ var gapCorpus = []struct {
 	{"loopvar-coincides-outer", []string{`i=10;for i=0:3{};i`}, 0},
 	{"loopvar-coincides-outer", []string{`k=5;func f(){for k=0:3{}};f();k`}, 0},
 	{"loopvar-read-by-callee", []string{`func g(){i};for i=0:3{println(g())}`}, 0},
+	{"name-read-by-eval-string", []string{`func f(n){eval("n")};f(3)`}, 0},
 }
 
 // sessions that were failing on the pinned tree and are repaired (must now agree on/off)
@@ -849,6 +893,9 @@ var fixedCorpus = [][]string{
 	{`func mk(a,b){()=>a+b};mk(1,2)()`},
 	{`func n(){5};func f(n){n()};f(1)`}, {`m={"n":4};func f(n){m.n+n};f(1)`}, {`m={"n":4};func f(n){del(m.n);m};f(1)`},
 	{`func f(n){{n:print("a"), n:print("b")}};f(1)`}, {`for n=0:2{println({n:1, n:2})}`},
+	{`for i=5 { if i==3 {break}; i }`}, {`for i=4 { if i==3 {continue}; i }`}, {`func f(n){n + (n=5)};f(1)`}, {`func f(n){del(n);5};f(1)`},
+	{`func f(n){quote(n+1)};f(1)`}, {`for i=5 { i=i+1; print(i) }`}, {`for i=3 { r=catch(for j=3 { 1/0 }); print(i) }`},
+	{`func f(n){ for i=n { catch(for j=2 { error("boom") }) }; n }; f(3)`}, {`catch(for j=3 { 1/0 })`, `for a=2{for b=2{for c=2{for d=2{for e=2{for f=2{for g=2{for h=2{println(a+h)}}}}}}}}`},
 	{`t=0; for i=0:3{t=i}; for j=7:9{}; t`}, {`m={}; for i=0:3{m[i]=i}; for j=7:9{}; m`}, {`m={}; for i=0:3{m={i:i}}; for j=7:9{}; m`},
 	{`a=[0]; for i=0:3{a[0]=i}; for j=7:9{}; a`}, {`func f(n){t=0;t=n;n=5;t};f(1)`}, {`func f(n){m={"a":n};n=5;m};f(1)`}, {`fs=[];for i=0:3{fs=fs+[()=>i]};fs[0]()`},
 }
@@ -858,6 +905,7 @@ var fixedCorpus = [][]string{
 var dbg *os.File
 
 func runC05(c *Ctx) {
+	_ = extensions.Init(nil) // eval(), json, ... (already initialised is fine)
 	if os.Getenv("VERIF_DEBUG") != "" {
 		dbg, _ = os.Create(c.Out + "/sources.txt")
 		defer dbg.Close()
@@ -896,7 +944,7 @@ func runC05(c *Ctx) {
 		nSess, nLong, longLen, nVal = 36000, 160, 600, 90000
 	}
 	nfn := 0
-	for i := 0; i < nSess; i++ {
+	for i := 0; i < nSess && !enough(); i++ {
 		var known []*fdef
 		var ins []skInput
 		k := 1 + c.R.Intn(5)
@@ -912,7 +960,7 @@ func runC05(c *Ctx) {
 		skeletonSession(c, ins)
 	}
 	// long sessions: hundreds of top-level loops on one state, every exit kind
-	for i := 0; i < nLong; i++ {
+	for i := 0; i < nLong && !enough(); i++ {
 		var known []*fdef
 		var ins []skInput
 		for j := 0; j < longLen; j++ {
@@ -937,7 +985,7 @@ func runC05(c *Ctx) {
 	}
 	// 4. value programs: direct oracle only
 	vn := 0
-	for i := 0; i < nVal; i++ {
+	for i := 0; i < nVal && !enough(); i++ {
 		g := &vgen{r: c.R, nfn: &vn}
 		var ins []string
 		k := 1 + c.R.Intn(3)
